@@ -5,10 +5,11 @@ Model: `PdfVerif.CIDFont` (hand model of cmapdb.py / pdffont.py / pdfdevice.py, 
 implementation by tools/harness/props/c07.py; literal tables regenerated into `Gen/CIDFont.lean`).
 Spec: `PdfVerif.CIDFontSpec`.  Only property theorems live here (helper lemmas: `Lemmas/CIDFont.lean`).
 -/
-import PdfVerif.Lemmas.CIDFont
+import PdfVerif.Lemmas.CMapLexBytes
 
 namespace PdfVerif.Props.C07
 open PdfVerif PdfVerif.CIDFont PdfVerif.CIDFontSpec PdfVerif.CIDFontLemmas
+open PdfVerif.Lexer (SepItem sepOK renderSep)
 
 /-! ## Segmentation: identity CMaps -/
 
@@ -273,5 +274,258 @@ theorem glyph_placement (v : Bool) (fs : Rat) (w : Nat → Rat) (a b : List Nat)
 means `DW2[1]`, and without `DW2` the regenerated default −1000. -/
 theorem vertical_default (cid : Nat) : glyphWidthV [] none cid = -1000 ∧ glyphWidthV [] (some (800, -900)) cid = -900 := by
   constructor <;> simp [glyphWidthV, Gen.CIDFont.DW2_DEFAULT]
+
+/-! ## Round 6: ill-formed arrays, `PDFCIDFont.__init__` glue, cidchar / cidrange / codespace sections -/
+
+/-- `get_widths2` is total: on EVERY element list (ill-formed arrays included: stray lists, non-numbers,
+real-valued or reversed range ends, truncated groups) it returns a dictionary, never an exception.
+(`get_widths` is total by its type: `getWidths : List WElem → WMap`.) -/
+theorem widths2_total (seq : List WElem) : ∃ m, getWidths2 seq = .ok m :=
+  getWidths2Aux_total seq _
+
+/-- … hence every CID font has a width and a displacement for every cid, whatever `W`, `DW`, `W2`, `DW2` hold. -/
+theorem cidfont_metrics_total (v : Bool) (w : List WElem) (dw : Option WVal) (w2 : List WElem)
+    (dw2 : Option (List WVal)) (cid : Nat) :
+    (∃ r, cidCharWidth v w dw w2 dw2 cid = .ok r) ∧ ∃ d, cidCharDisp v w2 dw2 cid = .ok d := by
+  obtain ⟨m, hm⟩ := widths2_total w2
+  cases v <;> simp [cidCharWidth, cidCharDisp, hm]
+
+/-- The number a `DW` entry contributes: itself when it is a number, nothing otherwise. -/
+def dwNumber : Option WVal → Option Rat
+  | some (.num v) => some v
+  | _ => none
+
+/-- The pair a `DW2` entry contributes: a list of exactly two numbers, nothing otherwise. -/
+def dw2Pair : Option (List WVal) → Option (Rat × Rat)
+  | some [.num vy, .num w] => some (vy, w)
+  | _ => none
+
+theorem dw2Value_eq (d : Option (List WVal)) : dw2Value d = (dw2Pair d).getD Gen.CIDFont.DW2_DEFAULT := by
+  unfold dw2Value dw2Pair
+  split <;> simp
+
+/-- `PDFCIDFont.char_width` of a horizontal font, from the font dictionary: the latest `W` entry covering the cid,
+else `DW` when `DW` is a number, else 1000 — for every well-formed `W`, EVERY value of `DW` (absent, number, any other
+object), and independently of `W2` / `DW2`. -/
+theorem cidfont_width_spec (es : List WEntry) (dw : Option WVal) (w2 : List WElem) (dw2 : Option (List WVal))
+    (cid : Nat) : cidCharWidth false (renderW es) dw w2 dw2 cid = .ok (specWidth es (dwNumber dw) cid) := by
+  simp only [cidCharWidth, Bool.false_eq_true, if_false, widths_spec]
+  congr 1
+  unfold specWidth
+  cases (specWidthPairs es).reverse.lookup (cid : Int) with
+  | some w => rfl
+  | none =>
+    cases dw with
+    | none => simp [dwValue, dwNumber, Gen.CIDFont.DW_DEFAULT]
+    | some v => cases v <;> simp [dwValue, dwNumber, Gen.CIDFont.DW_DEFAULT]
+
+/-- The same for a vertical font: advance `w1y` and position vector come from the latest `W2` entry, else from `DW2`
+when that is a list of exactly two numbers, else from the regenerated default `[880 -1000]`; `W` / `DW` are not read. -/
+theorem cidfont_width2_spec (es : List W2Entry) (w : List WElem) (dw : Option WVal) (dw2 : Option (List WVal))
+    (cid : Nat) :
+    cidCharWidth true w dw (renderW2 es) dw2 cid = .ok (specWidthV es (dw2Pair dw2) cid) ∧
+    cidCharDisp true (renderW2 es) dw2 cid =
+      .ok (.vec (specDispV es (dw2Pair dw2) cid).1 (specDispV es (dw2Pair dw2) cid).2) := by
+  simp only [cidCharWidth, cidCharDisp, if_true, widths2_map_spec]
+  unfold glyphWidthV glyphDispV specWidthV specDispV
+  rw [lookup_toW2Map, dw2Value_eq]
+  cases (specWidth2Pairs es).reverse.lookup (cid : Int) with
+  | none => cases dw2Pair dw2 <;> simp [Gen.CIDFont.DW2_DEFAULT]
+  | some t => simp
+
+/-- The writing mode of the encoding CMap alone decides which arrays are read: a horizontal font ignores
+`W2` / `DW2` and has displacement 0, a vertical font ignores `W` / `DW`. -/
+theorem writing_mode_selects_arrays (w w' : List WElem) (dw dw' : Option WVal) (w2 w2' : List WElem)
+    (dw2 dw2' : Option (List WVal)) (cid : Nat) :
+    cidCharWidth false w dw w2 dw2 cid = cidCharWidth false w dw w2' dw2' cid ∧
+    cidCharWidth true w dw w2 dw2 cid = cidCharWidth true w' dw' w2 dw2 cid ∧
+    cidCharDisp false w2 dw2 cid = .ok .zero :=
+  ⟨rfl, rfl, rfl⟩
+
+/-- `cidcoding` (the key of the collection's CID → Unicode table): Registry and Ordering with surrounding white
+space removed, joined by `-`. -/
+theorem cidcoding_spec (a1 r b1 a2 o b2 : Bytes)
+    (hs : ∀ c ∈ a1 ++ b1 ++ a2 ++ b2, isPySpace c = true)
+    (hr : (∀ x, r.head? = some x → isPySpace x = false) ∧ ∀ x, r.getLast? = some x → isPySpace x = false)
+    (ho : (∀ x, o.head? = some x → isPySpace x = false) ∧ ∀ x, o.getLast? = some x → isPySpace x = false) :
+    cidCoding (some (a1 ++ r ++ b1)) (some (a2 ++ o ++ b2)) = r ++ [45] ++ o := by
+  simp only [cidCoding, Option.getD_some, Gen.CIDFont.CIDCODING_SEP]
+  rw [pyStrip_pad a1 r b1 (fun c hc => hs c (by simp [hc])) (fun c hc => hs c (by simp [hc])) hr.1 hr.2,
+    pyStrip_pad a2 o b2 (fun c hc => hs c (by simp [hc])) (fun c hc => hs c (by simp [hc])) ho.1 ho.2]
+
+/-- The keywords the model treats as "discard the operands" are exactly the `self.popall(); return` branches of
+`CMapParser.do_keyword`, regenerated from cmapdb.py on every run (an edit there breaks this proof, and with it
+`codespace_ignored`'s link to the code). -/
+theorem popall_keywords_tied : popallKeywords = Gen.CIDFont.POPALL_KEYWORDS := by decide
+
+/-- From the raw `CIDSystemInfo`: a font without ToUnicode whose Registry / Ordering — written with any surrounding
+white space — name a collection that is not served by the TrueType cmap reads the table `Registry-Ordering` of the
+writing mode of its encoding CMap. -/
+theorem unicode_map_from_cidsysteminfo (a1 r b1 a2 o b2 : Bytes) (enc : String) (hasTTF v : Bool)
+    (hs : ∀ c ∈ a1 ++ b1 ++ a2 ++ b2, isPySpace c = true)
+    (hr : (∀ x, r.head? = some x → isPySpace x = false) ∧ ∀ x, r.getLast? = some x → isPySpace x = false)
+    (ho : (∀ x, o.head? = some x → isPySpace x = false) ∧ ∀ x, o.getLast? = some x → isPySpace x = false)
+    (hn : Gen.CIDFont.TTF_CODINGS.contains (latin1 (r ++ [45] ++ o)) = false) :
+    fontUnicodeMap .absent (some (a1 ++ r ++ b1)) (some (a2 ++ o ++ b2)) enc hasTTF v true
+      = .collection (latin1 (r ++ [45] ++ o)) v := by
+  unfold fontUnicodeMap
+  rw [cidcoding_spec a1 r b1 a2 o b2 hs hr ho]
+  exact collection_map_follows_wmode _ _ _ _ _ hn
+
+example : fontUnicodeMap .absent (some [32, 65, 100, 111, 98, 101]) (some [74, 97, 112, 97, 110, 49, 10]) "90ms-RKSJ-V"
+    false true true = .collection "Adobe-Japan1" true := by decide
+
+/-- A missing or ill-typed Registry / Ordering reads as `unknown`. -/
+theorem cidcoding_unknown : cidCoding none none = unknownBytes ++ [45] ++ unknownBytes := by decide
+
+/-- cidchar (handler level, any prior map): each `cid <code>` pair gives `cid ↦` the UTF-16BE text of the string. -/
+theorem cidchar_map (es : List (Int × Bytes)) (m : UMap) :
+    foldEntries cidcharEntry (chop2 (es.flatMap (fun e => [Tok.int e.1, Tok.str e.2]))) m
+      = .ok (putAll (es.map (fun e => (e.1, utf16Ignore e.2))) m) :=
+  cidchar_fold es m
+
+/-- cidrange (handler level): `<lo> <hi> cid` with codes of equal length that agree before their last four bytes
+gives `cid + i ↦` text of the code `lo + i` (carry form over the last `min 4 len` bytes), for every `i` up to
+`hi − lo`; no exception for any such entry (codes of any length, negative cids included). -/
+theorem cidrange_map (lo hi : Bytes) (cid : Int) (m : UMap) (hlen : lo.length = hi.length) (hne : lo ≠ [])
+    (hpre : dropLast4 lo = dropLast4 hi) :
+    cidrangeEntry m (Tok.str lo, Tok.str hi, Tok.int cid) = .ok (putAll
+      ((List.range (nunpack (takeLast 4 hi) + 1 - nunpack (takeLast 4 lo))).map
+        (fun i => (cid + ((i : Nat) : Int), utf16Ignore (incBE lo i)))) m) :=
+  cidrangeEntry_ok lo hi cid m hlen hne hpre
+
+/-- Codespace ranges — of one width or of several (`<00> <80> <8140> <9FFC> …`) — and notdef ranges have no effect
+on the parsed map: whatever operands stand between the keywords, the section leaves the map as it was and the
+operand stack empty. -/
+theorem codespace_ignored (ops : List Tok) (hops : ops.all notKw = true) (st : PState) (hc : st.inCmap = true) :
+    runToks (Tok.kw "begincodespacerange" :: ops ++ [Tok.kw "endcodespacerange"]) st = .ok { st with stack := [] } ∧
+    runToks (Tok.kw "beginnotdefrange" :: ops ++ [Tok.kw "endnotdefrange"]) st = .ok { st with stack := [] } := by
+  constructor
+  · rw [runToks_discard _ _ (by decide) (by decide) (by decide) (by decide) ops hops st]; simp [hc]
+  · rw [runToks_discard _ _ (by decide) (by decide) (by decide) (by decide) ops hops st]; simp [hc]
+
+/-- `/Name usecmap` and `/Key value def` inside a ToUnicode CMap change neither the map nor (net) the operand stack:
+the parser pops the operands and goes on (`use_cmap` / `set_attr` do not touch `cid2unichr`). -/
+theorem usecmap_def_ignored (n k : Bytes) (v : Tok) (hv : notKw v = true) (st : PState) (hc : st.inCmap = true) :
+    runToks [Tok.name n, Tok.kw "usecmap"] st = .ok st ∧ runToks [Tok.name k, v, Tok.kw "def"] st = .ok st := by
+  obtain ⟨stack, inCmap, map⟩ := st
+  simp only at hc
+  subst hc
+  constructor
+  · simp [runToks, stepTok, doKeyword]
+  · cases v <;> simp_all [runToks, stepTok, doKeyword, notKw]
+
+example : (parseToUnicode [.name [72], .kw "usecmap", .name [87], .int 1, .kw "def", .str [0x41], .str [0, 0x42],
+    .kw "endbfchar"]).toOption = some [(0x41, [0x42])] := by decide
+
+/-- non-vacuity: an ill-formed W2 array (stray list, non-number, real range end, incomplete triple) still parses. -/
+example : (getWidths2 [.list [.num 1], .other, .num 1 true, .list [.num (-5), .other, .num 2, .num 7],
+    .num 3 true, .num (5 / 2) false, .num 1 true, .num 2 true, .num 3 true, .num 9 true]).toOption = some [] := by
+  decide +kernel
+
+/-- non-vacuity: ill-typed `DW` falls back to 1000, a numeric one is used, `W2`/`DW2` are irrelevant. -/
+example : (cidCharWidth false (renderW exampleW) (some .other) [.other] (some []) 3).toOption = some 1000 ∧
+    (cidCharWidth false (renderW exampleW) (some (.num 250)) [] none 3).toOption = some 250 ∧
+    (cidCharWidth false (renderW exampleW) none [] none 2).toOption = some 600 := by decide +kernel
+
+example : (cidCharWidth true [] none (renderW2 exampleW2) (some [.num 700, .num (-800), .num 1]) 3).toOption = some (-1000) ∧
+    (cidCharWidth true [] none (renderW2 exampleW2) (some [.num 700, .num (-800)]) 3).toOption = some (-800) ∧
+    (cidCharDisp true (renderW2 exampleW2) (some [.num 700, .other]) 3).toOption = some (.vec none 880) ∧
+    (cidCharDisp true (renderW2 exampleW2) none 2).toOption = some (.vec (some 300) 810) := by decide +kernel
+
+/-- non-vacuity: `" Adobe "` / `"\tJapan1\n"` ↦ `Adobe-Japan1`. -/
+example : cidCoding (some ([32] ++ [65, 100, 111, 98, 101] ++ [32])) (some ([9] ++ [74, 97, 112, 97, 110, 49] ++ [10]))
+    = [65, 100, 111, 98, 101, 45, 74, 97, 112, 97, 110, 49] := by decide
+
+/-- non-vacuity: a cidrange that carries out of the low byte, a cidchar pair, a two-width codespace section. -/
+example : (parseToUnicode [.kw "begincodespacerange", .str [0], .str [0x80], .str [0x81, 0x40], .str [0x9F, 0xFC],
+      .kw "endcodespacerange", .str [0x30, 0xFF], .str [0x31, 0x01], .int 7, .kw "endcidrange",
+      .int 3, .str [0x00, 0x41], .kw "endcidchar"]).toOption
+    = some [(3, [0x41]), (9, [0x3101]), (8, [0x3100]), (7, [0x30FF])] := by decide
+
+/-! ## Round 6: ToUnicode CMaps from the BYTES of the stream -/
+
+/-- From bytes, not tokens: take any program of bfchar / bfrange sections in the domain, write each section's count
+as ANY digit string (`cntOK`; the parser discards it), write the CMap file — header, sections, trailer — object by
+object (hex strings in hexadecimal, integers in decimal, `/Name`s, keywords, arrays of hex strings) with ANY non-empty
+separator `g` of white space and comments after every object; then the tokenizer (`Lexer.specLex`, the model proved
+equal to the buffered `PSBaseParser` for every buffer size in C14), the object grouping of `PSStackParser.nextobject`
+(`groupToks`) and `CMapParser` together yield exactly the specified map. -/
+theorem tounicode_bytes_spec (g : List SepItem) (hg : sepOK g) (hne : g ≠ []) (ps : List CSec)
+    (hc : ps.all (fun p => cntOK p.1) = true) (h : inDomain (ps.map (·.2)) = true) :
+    parseToUnicodeBytes ((progS ps).flatMap (STok.spell (renderSep g))) = some (.ok (specMap (ps.map (·.2)))) := by
+  simp only [inDomain, Bool.and_eq_true] at h
+  unfold parseToUnicodeBytes
+  rw [group_lex_prog g hg hne ps hc]
+  simp only [Option.map_some]
+  rw [parse_renderN ps h.1, putAll_quirkFree _ _ h.2]
+  simp [specMap]
+
+/-- The same without the U+00A0 hypothesis (result as the sequence of `add_cid2unichr` assignments). -/
+theorem tounicode_bytes_assignments (g : List SepItem) (hg : sepOK g) (hne : g ≠ []) (ps : List CSec)
+    (hc : ps.all (fun p => cntOK p.1) = true) (h : (ps.map (·.2)).all secOk = true) :
+    parseToUnicodeBytes ((progS ps).flatMap (STok.spell (renderSep g)))
+      = some (.ok (putAll (specPairs (ps.map (·.2))) [])) := by
+  unfold parseToUnicodeBytes
+  rw [group_lex_prog g hg hne ps hc]
+  simp only [Option.map_some]
+  rw [parse_renderN ps h]
+
+/-- The grouping of `PSStackParser.nextobject` inverts the flattening of objects into tokens: for every sequence of
+strings, integers, names, reals, non-bracket keywords and flat arrays. -/
+theorem stackparser_groups_objects (bts : List BTok) (h : bts.all BTok.plain = true) :
+    groupToks (bts.flatMap BTok.flat) = some (bts.map BTok.toTok) := by
+  have := groupAux_flat bts [] [] h
+  simpa [groupToks, groupAux] using this
+
+/-- non-vacuity of the hypotheses: counts `2`, `007`; separator = a space, a comment, a newline. -/
+def exampleCSecs : List CSec :=
+  [([50], .chars [([0x41], [0x00, 0x41]), ([0x00, 0x02], [0xD8, 0x3D, 0xDE, 0x00])]),
+   ([48, 48, 55], .ranges [⟨[0x00, 0x10], [0x00, 0x12], .inc [0x00, 0xFE]⟩,
+                           ⟨[0x00, 0x20], [0x00, 0x21], .arr [[0x30, 0x42], [0x00, 0x66, 0x00, 0x69]]⟩])]
+
+example : sepOK [.ws 32, .comment [99, 32, 60] 13, .ws 10] ∧ exampleCSecs.all (fun p => cntOK p.1) = true ∧
+    inDomain (exampleCSecs.map (·.2)) = true := by
+  refine ⟨?_, by decide +kernel, by decide +kernel⟩
+  intro i hi
+  simp only [List.mem_cons, List.not_mem_nil, or_false] at hi
+  rcases hi with rfl | rfl | rfl
+  · show Lexer.isGapByte 32 = true; decide
+  · exact ⟨by intro x hx; simp only [List.mem_cons, List.not_mem_nil, or_false] at hx; rcases hx with rfl | rfl | rfl <;> decide +kernel, Or.inr rfl⟩
+  · show Lexer.isGapByte 10 = true; decide
+
+/-- … and the byte-level model computes on a stream in quite another spelling (minimal delimiters, upper-case hex
+with inner white space, a literal string with octal escapes, comments, CR / LF):
+`… 2 beginbfchar <41> <0041> <0002>(\330=\336\000) endbfchar 1 beginbfrange<0010><0012>[<3042><00660069>]endbfrange …`. -/
+example : (parseToUnicodeBytes [47, 67, 73, 68, 73, 110, 105, 116, 32, 47, 80, 114, 111, 99, 83, 101, 116, 32, 102, 105, 110, 100, 114, 101, 115, 111, 117, 114, 99, 101, 32, 98, 101, 103, 105, 110, 32, 49, 50, 32, 100, 105, 99, 116, 32, 98, 101, 103, 105, 110, 32, 98, 101, 103, 105, 110, 99, 109, 97, 112, 32, 47, 67, 77, 97, 112, 78, 97, 109, 101, 47, 65, 100, 111, 98, 101, 45, 73, 100, 101, 110, 116, 105, 116, 121, 45, 85, 67, 83, 32, 100, 101, 102, 10, 49, 32, 98, 101, 103, 105, 110, 99, 111, 100, 101, 115, 112, 97, 99, 101, 114, 97, 110, 103, 101, 60, 48, 48, 48, 48, 62, 60, 70, 70, 32, 70, 70, 62, 101, 110, 100, 99, 111, 100, 101, 115, 112, 97, 99, 101, 114, 97, 110, 103, 101, 32, 37, 32, 116, 119, 111, 13, 50, 32, 98, 101, 103, 105, 110, 98, 102, 99, 104, 97, 114, 32, 60, 52, 49, 62, 32, 60, 48, 48, 52, 49, 62, 32, 60, 48, 48, 48, 50, 62, 40, 92, 51, 51, 48, 61, 92, 51, 51, 54, 92, 48, 48, 48, 41, 32, 101, 110, 100, 98, 102, 99, 104, 97, 114, 10, 49, 32, 98, 101, 103, 105, 110, 98, 102, 114, 97, 110, 103, 101, 60, 48, 48, 49, 48, 62, 60, 48, 48, 49, 50, 62, 91, 60, 51, 48, 52, 50, 62, 60, 48, 48, 54, 54, 48, 48, 54, 57, 62, 93, 101, 110, 100, 98, 102, 114, 97, 110, 103, 101, 32, 101, 110, 100, 99, 109, 97, 112, 32, 101, 110, 100, 32, 101, 110, 100]
+    ).map Except.toOption = some (some [(0x11, [0x66, 0x69]), (0x10, [0x3042]), (2, [0x1F600]), (0x41, [0x41])]) := by
+  decide +kernel
+
+/-! ## Round 6: ToUnicode is consulted with the CID (open finding `tounicode-keyed-by-cid`) -/
+
+/-- What ISO 32000-1 9.10.3 demands: the text of each character CODE of the string, looked up in the ToUnicode map
+by the code. -/
+def specText (codes : List Bytes) (m : UMap) : List (Option (List Nat)) := codes.map (fun c => m.lookup (nunpack c : Int))
+
+/-- `_partial`: holds for the identity CMaps only (Identity-H/V, DLIdent-H/V), where the CID **is** the code: the
+text of every shown string is the ToUnicode text of its two-byte codes.  Missing: every table CMap (the predefined
+CJK CMaps) — see `tounicode_keyed_by_cid_cex`. -/
+theorem tounicode_text_identity_partial (m : UMap) (s : Bytes) :
+    shownText identityDecode m s = (specIdentity 2 s).map (fun (code : Nat) => m.lookup (code : Int)) := by
+  simp [shownText, toUnichr, identity_segment]
+
+def cexRoot : TDict := [(0x82, .node [(0xA2, .leaf 845)])]
+def cexMap : UMap := [(0x82A2, [0x3044])]
+
+/-- Proved counter-example for the full statement (pinned behaviour, finding `tounicode-keyed-by-cid`): with the
+encoding 90ms-RKSJ-H (code `82A2` ↦ CID 845) and a ToUnicode CMap `<82A2> <3044>`, the shown string `82A2` gets no
+text at all (`(cid:845)`), although its code is mapped to U+3044. -/
+theorem tounicode_keyed_by_cid_cex :
+    trieDecode cexRoot [0x82, 0xA2] = [845] ∧
+    shownText (trieDecode cexRoot) cexMap [0x82, 0xA2] = [none] ∧ specText [[0x82, 0xA2]] cexMap = [some [0x3044]] := by
+  decide
+
+example : shownText identityDecode [(0x3042, [0x3042]), (0x41, [0x66, 0x69])] [0x00, 0x41, 0x30, 0x42, 0x00, 0x07]
+    = [some [0x66, 0x69], some [0x3042], none] := by decide
 
 end PdfVerif.Props.C07
